@@ -20,8 +20,55 @@ def _resolve(dotted):
     return resolve(dotted)
 
 
-def symlist(cls_dotted, subatoms=None, max_len=None):
-    """kind for Contract.params: a list of arbitrary length of abstract instances of cls"""
+def field_value(m, atom, tag, kind):
+    """a symbolic value that is a FUNCTION of the abstract element (same element -> same value):
+    'bytes:N' | 'bytes' | ('int', lo, hi) | ('tint', class, lo, hi)"""
+    if isinstance(kind, str) and kind.startswith("bytes"):
+        t = z3.Function("atom_b_" + tag, AtomSort, BSort)(atom)
+        if kind == "bytes":
+            n = z3.Function("atom_blen_" + tag, AtomSort, z3.IntSort())(atom)
+            m.p.assume(n >= 0)
+        else:
+            n = int(kind[6:])
+        m.p.blen[id_key(t)] = n
+        return SBytes([OB(t, n)])
+    if isinstance(kind, tuple) and kind[0] in ("int", "tint"):
+        lo, hi = kind[-2], kind[-1]
+        t = z3.Function("atom_i_" + tag, AtomSort, z3.IntSort())(atom)
+        m.p.assume(z3.And(t >= lo, t <= hi))
+        v = m.wrap_int_term(t, hi.bit_length() if lo >= 0 else None)
+        return TInt(_resolve(kind[1]), v) if kind[0] == "tint" else v
+    if isinstance(kind, tuple) and kind[0] == "keypath_witness":
+        # a taproot key-path witness without annex: exactly one item, the 64-byte signature
+        from buidl.witness import Witness
+        sig = field_value(m, atom, tag + "_sig", "bytes:64")
+        return m.p.alloc(HObj(Witness, {"items": m.p.alloc(HList([sig]))}))
+    raise Undecided("symlist field kind %r" % (kind,))
+
+
+def symtuples(tag, kinds, max_len=None):
+    """a list of arbitrary length of tuples whose members are functions of an abstract element"""
+    def mk(m, name):
+        L = m.p.fresh(name, ListSort)
+        n = m.p.fresh(name + "_len")
+        m.p.assume(n >= 0)
+        if max_len is not None:
+            m.p.assume(n <= max_len)
+        memo = {}
+
+        def elem(kt):
+            kt = z3.simplify(kt if not isinstance(kt, int) else I(kt))
+            key = TKey(kt)
+            if key not in memo:
+                memo[key] = tuple(field_value(m, ELEM(L, kt), "%s_%d" % (tag, j), kd) for j, kd in enumerate(kinds))
+            return memo[key]
+        return m.p.alloc(HList([], pre=(L, n, elem)))
+    return mk
+
+
+def symlist(cls_dotted, subatoms=None, max_len=None, fields=None):
+    """kind for Contract.params: a list of arbitrary length of abstract instances of cls;
+    `fields` gives attributes that are symbolic functions of the element (see field_value)"""
     def mk(m, name):
         cls = _resolve(cls_dotted)
         L = m.p.fresh(name, ListSort)
@@ -36,7 +83,11 @@ def symlist(cls_dotted, subatoms=None, max_len=None):
             kt = z3.simplify(kt if not isinstance(kt, int) else I(kt))
             key = TKey(kt)
             if key not in memo:
-                memo[key] = m.p.alloc(HObj(cls, {"_atom": ELEM(L, kt), "_subatoms": subs}))
+                a = ELEM(L, kt)
+                fl = {"_atom": a, "_subatoms": subs}
+                for fname, kd in (fields or {}).items():
+                    fl[fname] = field_value(m, a, cls.__name__ + "_" + fname, kd)
+                memo[key] = m.p.alloc(HObj(cls, fl))
             return memo[key]
         return m.p.alloc(HList([], pre=(L, n, elem)))
     return mk
